@@ -329,6 +329,11 @@ func (c *ctx) decorate(s *Shape, env *Env) {
 				out = append(out, n)
 			}
 		}
+		// the order in which a rule lists its properties is arbitrary (and part of the description)
+		for i := len(out) - 1; i > 0; i-- {
+			j := r.Intn(i + 1)
+			out[i], out[j] = out[j], out[i]
+		}
 		return out
 	}
 	for _, p := range s.Props {
@@ -341,13 +346,13 @@ func (c *ctx) decorate(s *Shape, env *Env) {
 		}
 		if c.cfg.Presence && len(names) > 1 {
 			if r.Chance(20) {
-				p.ReqIf = others(p.Name, 2)
+				p.ReqIf = others(p.Name, 3)
 			}
 			if r.Chance(20) {
-				p.ReqIfNot = others(p.Name, 2)
+				p.ReqIfNot = others(p.Name, 3)
 			}
 			if r.Chance(20) {
-				p.Conflicts = others(p.Name, 2)
+				p.Conflicts = others(p.Name, 3)
 			}
 		}
 		if c.cfg.Defaults && r.Chance(25) {
